@@ -378,3 +378,14 @@ Proof.
   pose proof (back_sound PFV rs Crs Srs Tr fr Efr) as B.
   destruct fr as [| | |k]; try exact I; rewrite <- Mv; exact (B _ Fv).
 Qed.
+
+
+(* literal-on-the-left atoms with a FINAL literal evaluate like the mirrored atom (for a pre/post-release literal they do not:
+   PEP 440 excludes the literal as a candidate - the code leaves such atoms unmerged since fix 004ebf8) *)
+Theorem reversed_sem c v : (c_op c = OpLt \/ c_op c = OpLe \/ c_op c = OpGt \/ c_op c = OpGe \/ c_op c = OpEq \/ c_op c = OpNe) ->
+  atom_sem_rev c v = atom_sem c v.
+Proof.
+  destruct c as [op V]. cbn [c_op]. unfold atom_sem_rev, atom_sem, clause_sem. cbn [c_op c_ver reflect_sop].
+  intros [->|[->|[->|[->|[->| ->]]]]]; cbn [reflect_sop]; rewrite ?pvleb, ?pvltb, ?pveqb; try reflexivity;
+    rewrite (vcmp_antisym V v); destruct (vcmp V v); reflexivity.
+Qed.
